@@ -25,6 +25,7 @@ mod gen_outstation;
 mod eng_pair;
 mod gen_pair;
 mod mon_pair;
+mod eng_attr;
 
 use std::io::Write;
 
@@ -47,6 +48,7 @@ fn main() {
                 "parse" => eng_parse::gen(thorough, seed, &mut out),
                 "ffi" => eng_ffi::gen(thorough, seed, &mut out),
                 "db" => eng_db::gen(thorough, seed, &mut out),
+                "attr" => eng_attr::gen(thorough, seed, &mut out),
                 "convert" => eng_convert::gen(thorough, seed, &mut out),
                 "outstation" => gen_outstation::gen(thorough, seed, &mut out, gen_outstation::GenCfg { with_db: false }),
                 "master" => gen_master::gen(thorough, seed, &mut out),
@@ -74,6 +76,7 @@ fn main() {
                 "parse" => eng_parse::run(&ops, &mut out, &mut mon),
                 "ffi" => eng_ffi::run(&ops, &mut out, &mut mon),
                 "db" => eng_db::run(&ops, &mut out, &mut mon),
+                "attr" => eng_attr::run(&ops, &mut out, &mut mon),
                 "convert" => eng_convert::run(&ops, &mut out, &mut mon),
                 "outstation" | "outstationdb" => eng_outstation::run(&ops, &mut out, &mut mon),
                 "master" => eng_master::run(&ops, &mut out, &mut mon),
